@@ -49,8 +49,25 @@ def _mk(shape, dx, dtype):
     return spne.FastDiagPoissonSolver3D(grid_size_z=shape[0], grid_size_y=shape[1], grid_size_x=shape[2], dx=dx, real_t=dtype)
 
 
+def _cond(shape):
+    """Condition number of the Neumann Laplacian on its range (analytic eigenvalues; independent of dx)."""
+    lmin = min(4 * np.sin(np.pi / (2 * n)) ** 2 for n in shape)
+    lmax = sum(4 * np.sin(np.pi * (n - 1) / (2 * n)) ** 2 for n in shape)
+    return lmax / lmin
+
+
 def _tol(dtype, shape):
-    return 200 * np.finfo(dtype).eps * max(shape) ** 2
+    # a backward-stable spectral solve leaves a residual of a few eps * cond(A) * |f| (measured on the unchanged
+    # tree: <= 4 eps cond over all enumerated shapes, spacings and precisions); 64 leaves a factor 16
+    return 64 * np.finfo(dtype).eps * _cond(shape)
+
+
+def _modes(shape):
+    """Multi-indices of the tensor-product cosine modes used as right-hand sides: ALL of them on small grids,
+    otherwise the three lowest and the highest wave number per axis (and all their products)."""
+    n = int(np.prod(shape))
+    per_axis = [range(m) if n <= 160 else sorted({0, 1, 2, 3, m - 1} & set(range(m))) for m in shape]
+    return [k for k in itertools.product(*per_axis) if any(k)]
 
 
 def case_basis(shape, dx, dtype):
@@ -66,11 +83,19 @@ def case_basis(shape, dx, dtype):
     cols = list(range(n)) if n <= 160 else list(range(0, n, max(1, n // 97))) + [n - 1]
     worst = 0.0
     trans = 0
-    rhs_list = [("impulse", j) for j in cols] + [("const", 0), ("dense", 0)]
+    ctl = None
+    # second basis: the eigenvectors of the operator (cosine modes) - a solver that drops or mis-scales ONE mode
+    # leaves an O(1) residual there, while its trace in a unit impulse is O(1/n)
+    rhs_list = [("impulse", j) for j in cols] + [("const", 0), ("dense", 0)] + [("mode", k) for k in _modes(shape)]
     for kind, j in rhs_list:
         f = np.zeros(n, dtype=dtype)
         if kind == "impulse":
             f[j] = 1
+        elif kind == "mode":
+            m = np.ones(shape)
+            for ax, (ka, na) in enumerate(zip(j, shape)):
+                m = m * np.cos(np.pi * ka * (np.indices(shape)[ax] + 0.5) / na)
+            f[:] = m.ravel().astype(dtype)
         elif kind == "const":
             f[:] = 2.5
         else:
@@ -92,6 +117,8 @@ def case_basis(shape, dx, dtype):
         target = target - target.mean()
         res = np.abs(A @ uu - target).max()
         fscale = max(np.abs(f0).max(), 1e-300)
+        if kind == "dense":
+            ctl = (uu, target, fscale)
         # mean(u) compared with the size of u (||u|| ~ dx^2 n^2 ||f||)
         uscale = fscale * dx**2 * max(shape) ** 2
         worst = max(worst, res / (tol * fscale))
@@ -102,7 +129,7 @@ def case_basis(shape, dx, dtype):
     # negative control: a solution of the Dirichlet-like (unmodified boundary rows) problem must be rejected
     A_bad = A.copy()
     A_bad[0, 0] += 1.0 / dx**2
-    if np.abs(A_bad @ uu - target).max() <= tol * fscale and not fails:
+    if ctl is not None and not fails and np.abs(A_bad @ ctl[0] - ctl[1]).max() <= tol * ctl[2]:
         from harness.interp import HarnessError
 
         raise HarnessError("C11 control: tolerance cannot distinguish a modified boundary row")
@@ -211,6 +238,8 @@ def run(r) -> None:
     s3 = range(2, 4) if quick else range(2, 7)
     shapes = list(itertools.product(s2, s2)) + list(itertools.product(s3, s3, s3))
     shapes += [(2, 64), (64, 3), (33, 2, 5), (7, 6), (4, 3, 5)]
+    # one LONG axis next to short ones (the lowest non-constant mode is close to the null mode in single precision)
+    shapes += [(5, 64), (64, 6), (4, 4, 60), (2, 3, 64), (64, 2, 2)]
     if not quick:
         shapes += [(64, 64), (17, 40), (20, 9, 12), (2, 2, 64)]
     cases = []
@@ -232,5 +261,5 @@ def run(r) -> None:
     seqs = [dict(shape=sh, order=list(o), dtype=dt) for sh in ((4, 6), (3, 4, 5), (4, 4, 4)) for o in itertools.permutations(range(3)) for dt in ("float64", "float32")]
     r.run_cases("construction-sequences", "sequence", seqs)
     r.bounds = {"shapes": f"{{{s2.start}..{s2.stop-1}}}^2, {{{s3.start}..{s3.stop-1}}}^3 + " + str([s for s in shapes if max(s) > 5][:9]), "spacings": DXS + EXTREME_DXS, "history_depth": depth}
-    r.extra["rule"] = "basis: one state per right-hand side (all unit impulses + constant + dense) per shape/spacing/dtype; history: BFS states = bytes of all solver arrays"
-    r.assumptions = ["LAPACK eigen-decomposition treated as opaque; residual tolerance 200 eps n_max^2 ||f||"]
+    r.extra["rule"] = "basis: one state per right-hand side (all unit impulses + all cosine eigenmodes + constant + dense) per shape/spacing/dtype; history: BFS states = bytes of all solver arrays"
+    r.assumptions = ["LAPACK eigen-decomposition treated as opaque; residual tolerance 64 eps cond(A) ||f|| with the analytic condition number of the Neumann Laplacian"]
